@@ -43,11 +43,11 @@ claim("C03", EQ,
       "arithmetic truth function transcribed from the property (K1-K7), per sign case.", BASE_NOTE, "§4/C03")
 claim("C04", EQ + "; affine-relation analysis of negate()",
       "Every connective constructor, the cicJE rule tables and the JSON dispatcher are proven equal to their kernel forms; "
-      "Imply/XNor/Not additionally inherit the complement obligations of negate() (one known finding: mixed branch).",
+      "Imply/XNor/Not additionally inherit the complement obligations of negate() (its mixed-member defect was repaired, fix 1533229).",
       BASE_NOTE + "Boolean leaves; kernel semantics from C03.", "§4/C04")
 claim("C05", "affine-relation analysis of negate() per (return path x sign) + typestate 'solver-safe form' + id rule",
       "For every return path of negate() and both signs: sign'·Σchildren' - value' ≡ -(sign·Σchildren - value) - 1 as linear forms "
-      "(children negated by induction), sign' = +1 or no compound child, id kept iff explicit. One known finding (mixed branch).",
+      "(children negated by induction), sign' = +1 or no compound child (over boolean leaves), id kept iff explicit; paths the linear argument cannot follow are decided by enumeration of abstract states (<= 2 atoms with declared bounds (0,1)/(0,2)/(-1,2), <= 2 compounds, value in [-3,4]). The mixed-member defect was repaired (fix 1533229).",
       BASE_NOTE + "Constructor projections justified by the AtLeast.__init__ contract (an obligation).", "§4/C05")
 claim("C07", EQ + "; dataflow rule on the children handed to the result constructor",
       "Hypotheses H1-H4 of the compositionality proof are decided statically: kernel, own-id override, leaf rule, and 'no child "
@@ -73,7 +73,7 @@ claim("C01", EQ + "; sibling agreement of the two TheoryPy builders; who-may-con
 claim("C10", "equivalence-adequacy analysis of every de-duplication key (E7) + " + EQ,
       "errors() ≡ four labelled checks (cycle wiring, two definition-uniqueness checks, duplicate edges) with complete dependency "
       "relation; every key fed to set()/Counter and the __eq__ of objects de-duplicated inside flatten() must separate different "
-      "definitions. Four known-finding constructs of one genuine defect (lossy de-duplication).",
+      "definitions; keys must be injective AND cover the identifying fields; the definition checks range over every occurrence. The lossy de-duplication defect was repaired (fix 720688a).",
       BASE_NOTE + "Key classification table (tuple of fields injective; hash / string concatenation not).", "§4/C10")
 claim("C11", EQ, "Each reduction kernel (A_min, reducable_rows, reducable_columns_approx, reduce_columns, reduce_rows, the fixpoint loop, "
       "reduce) is proven equal to its formula for all inputs; formula ⇒ solution-set preservation by three one-line lemmas.",
@@ -98,7 +98,7 @@ claim("C15", EQ + "; index-space (FULL vs A-columns) pairing rules; must-pass-th
 claim("C16", "serialisation writer/reader agreement analysis (keys, id guard, omission defaults, registry exhaustiveness, state coverage) + " + EQ,
       "For the 13 classes reachable from the two registries: writer and reader agree on keys, ids are emitted only when explicit, "
       "omission predicates equal reader/constructor defaults, every emitted type resolves in both registries, every state component "
-      "is written or re-derived. One known finding (compound's own bounds).", BASE_NOTE, "§4/C16")
+      "is written or re-derived; stored constructor arguments that may be str ids have no methods invoked on them (E3.raw-state); writers do not select by position in the id-sorted member list (E3.sorted-position). One known finding (compound's own bounds); two defects repaired (fixes 9e65150, 40b4536).", BASE_NOTE, "§4/C16")
 claim("C17", "serialisation positional/coverage agreement + " + EQ,
       "dumps(self); no custom pickling hooks; list[i] ↔ __new__ parameter i; list covers every attached attribute; finalize carries "
       "variables/index.", BASE_NOTE + "pickle/gzip/base64 inverse-ness is a library fact.", "§4/C17")
